@@ -216,6 +216,9 @@ func (w *work) one(cat string, src []byte) {
 		if st.tokens > 0 {
 			c.Observe("tokens_checked", int64(st.tokens))
 		}
+		if st.relexChecked > 0 {
+			c.Observe("token_lists_rechecked_after_a_later_lex", int64(st.relexChecked))
+		}
 		if st.nodes > 0 {
 			c.Observe("nodes_walked", int64(st.nodes))
 			c.ObserveMax("max:tree_depth:"+en, int64(st.maxDepth))
